@@ -3,7 +3,9 @@ import HappyProofs.C12.LockProof
 import HappyProofs.C12.MPWitness
 import HappyProofs.C12.MPCommit
 import HappyProofs.C12.MPLeader
+import HappyProofs.C12.MPDeposed
 import HappyProofs.C12.ElWitness
+import HappyProofs.C12.ElStale
 import HappyModel.C12.Spec
 /-!
 # C12 — property theorems (single-decree Paxos, Flexible quorums)
@@ -279,6 +281,66 @@ theorem MP.commit_distinct_quorum_current_false :
     Spec.commitQuorum 3 [] (MP.obsRun (MP.init 3 1 3 true) MP.duplicateAcks) = true := by
   decide
 
+/-! ## Multi-Paxos / Flexible Paxos: a node that promised another node's ballot does not lead -/
+
+/-- A PROMISE ENDS LEADERSHIP: for every cluster size, every `(q1, q2)`, Multi- or Flexible Paxos and
+    **every** action list, right after a node answered a `Prepare` with a `Promise` (it adopted the ballot
+    of another node) its `is_leader` is false. -/
+theorem MP.promise_clears_leadership (n q1 q2 : Nat) (flex : Bool) (as : List MP.Act) :
+    Spec.promiseClears [] (MP.obsRun (MP.init n q1 q2 flex) as) = true :=
+  MP.run_promiseClears as (MP.init n q1 q2 flex) []
+
+/-- A DEPOSED LEADER ASSIGNS NO SLOT: along every action list over the nodes `0 … n-1`, a node that has
+    answered a `Prepare` with a `Promise` neither assigns a slot to a command handed to `submit()` nor
+    sends an `Accept` until a phase-1 response (its own `start()` or a delivered `Promise`) leaves it leader
+    again — with `is_leader` turning from false to true (judged by `leader_needs_phase1_quorum`) or with
+    `q1` responses for that ballot number. -/
+theorem MP.deposed_leader_never_assigns (n q1 q2 : Nat) (flex : Bool) (as : List MP.Act)
+    (hr : ∀ a ∈ as, MP.actor a < n) :
+    Spec.deposedSilent q1 [] (MP.obsRun (MP.init n q1 q2 flex) as) = true := by
+  refine MP.run_deposedSilent as (MP.init n q1 q2 flex) [] (fun p hd => by simp [Spec.deposed] at hd) ?_
+  intro a ha
+  have : (MP.init n q1 q2 flex).nodes.length = n := by simp [MP.init]
+  rw [this]; exact hr a ha
+
+/-- the same through the judge's entry point: neither deposed-leader signature on any model run -/
+theorem MP.deposed_judge_silent (pfx : String) (n q1 q2 : Nat) (flex : Bool) (as : List MP.Act)
+    (hr : ∀ a ∈ as, MP.actor a < n) :
+    Spec.judgeDeposed pfx q1 (MP.obsRun (MP.init n q1 q2 flex) as) = none := by
+  simp [Spec.judgeDeposed, MP.deposed_leader_never_assigns n q1 q2 flex as hr, MP.promise_clears_leadership]
+
+/-- 3 nodes: node 0 leads with ballot (1,0) = 3; node 1 starts (1,1) = 4 and leads on the promise of
+    node 2; its `Prepare` reaches node 0 late; a command is then submitted to node 0 -/
+def MP.slowPrepare : List MP.Act :=
+  [ .start 0, .prepare 1 3, .promise 0 1, .submit 0 8,
+    .start 1, .prepare 2 4, .promise 1 1,
+    .prepare 0 4, .submit 0 9 ]
+
+/-- non-vacuity: the run contains a real promise by a sitting leader (`pled 0 4 false`: node 0 was leader and
+    assigned slot 1 to command 8 before), afterwards node 0 is not leader and parks command 9 instead of
+    assigning slot 2 -/
+example :
+    Spec.LogObs.asg 0 1 ∈ MP.obsRun (MP.init 3 2 2 false) MP.slowPrepare ∧
+    Spec.LogObs.pled 0 4 false ∈ MP.obsRun (MP.init 3 2 2 false) MP.slowPrepare ∧
+    Spec.LogObs.asg 0 2 ∉ MP.obsRun (MP.init 3 2 2 false) MP.slowPrepare ∧
+    (MP.getNode (MP.run (MP.init 3 2 2 false) MP.slowPrepare) 0).pending = [(9, 1)] ∧
+    (∀ a ∈ MP.slowPrepare, MP.actor a < 3) := by
+  decide
+
+/-- THE SPEC REJECTS A DEPOSED LEADER THAT KEEPS ASSIGNING: the observations of the same schedule on a node
+    whose `Prepare` handler leaves `is_leader` set (it promises (1,1) and then assigns slot 2 to command 9
+    itself) violate both clauses — the class `mpaxos/leader/deposed-leader-assigns-slot`; a node that was
+    re-elected in between (`prom 0 2 false true` with a phase-1 quorum) may assign. -/
+theorem MP.deposed_leader_violates_spec :
+    Spec.deposedSilent 2 []
+      [.prom 0 1 false false, .prom 0 1 false true, .asg 0 1, .pled 0 4 true, .asg 0 2] = false ∧
+    Spec.promiseClears []
+      [.prom 0 1 false false, .prom 0 1 false true, .asg 0 1, .pled 0 4 true, .asg 0 2] = false ∧
+    Spec.deposedSilent 2 []
+      [.prom 0 1 false false, .prom 0 1 false true, .asg 0 1, .pled 0 4 false,
+       .prom 0 2 false false, .prom 0 2 false true, .asg 0 2] = true := by
+  decide
+
 /-! ## Distributed lock -/
 
 /-- FENCING: for every operation list (acquire / try_acquire / release / lease expiry, any locks,
@@ -299,6 +361,44 @@ example :
 
 /-- the Spec rejects a repeated token for a different holder and a decreasing token -/
 example : Spec.fencing [] [(0, 7, 1), (0, 9, 1)] = false ∧ Spec.fencing [] [(0, 7, 2), (1, 9, 1)] = false := by
+  decide
+
+/-! ## Leader election: the leader a node reports for a term -/
+
+/-- A STALE HEARTBEAT CHANGES NOTHING: in every state, a `LeaderHeartbeat` stamped with a term older than
+    the receiver's current term leaves the receiver's state — hence the `(term, leader)` it reports —
+    untouched, and sends nothing. -/
+theorem El.stale_heartbeat_does_not_change_leader (s : El.St) (draw d l t : Nat)
+    (h : t < (El.getNode s d).term) :
+    (El.step s draw (.lhb d l t)).1 = s ∧ El.report (El.step s draw (.lhb d l t)).1 d = El.report s d := by
+  rw [El.stale_heartbeat_ignored s draw d l t h]
+  exact ⟨rfl, rfl⟩
+
+/-- WITHIN A TERM THE LEADER MOVES ONLY ON A HEARTBEAT OF THAT TERM: for every start state, every list of
+    actions and random draws, the per-node observations of the model run raise neither
+    `election/leader/changed-within-term-by-stale-heartbeat` nor `…/changed-within-term-without-heartbeat`. -/
+theorem El.election_steps_judge_silent (s : El.St) (as : List (Nat × El.Act)) :
+    Spec.judgeElSteps (El.obsRun s as) = none :=
+  El.run_judgeElSteps as s
+
+/-- node 0 follows node 2 in term 2 -/
+def El.followsTwo : El.St :=
+  { strat := .bully, nodes := [{ leader := some 2, term := 2, members := [0, 1, 2] }, { members := [0, 1] }, { members := [0, 1, 2] }] }
+
+/-- non-vacuity: a heartbeat of node 1 stamped term 1 < 2 is a real stale heartbeat and is ignored, one
+    stamped term 3 is adopted … -/
+example :
+    El.report (El.step El.followsTwo 1 (.lhb 0 1 1)).1 0 = some (2, 2) ∧
+    El.report (El.step El.followsTwo 1 (.lhb 0 1 3)).1 0 = some (3, 1) := by decide
+
+/-- … and the Spec rejects a node that adopts the sender of the stale heartbeat without moving its term
+    (the class `election/leader/changed-within-term-by-stale-heartbeat`), and one that swaps the leader inside
+    a term on a `Victory`; it accepts what the model does. -/
+theorem El.stale_heartbeat_adopted_violates_spec :
+    Spec.staleHbOk { node := 0, isHb := true, hterm := 1, t0 := 2, l0 := some 2, t1 := 2, l1 := some 1 } = false ∧
+    Spec.withinTermOk { node := 0, isHb := false, hterm := 0, t0 := 2, l0 := some 2, t1 := 2, l1 := some 1 } = false ∧
+    Spec.staleHbOk (El.obsStep El.followsTwo 1 (.lhb 0 1 1)) = true ∧
+    Spec.withinTermOk (El.obsStep El.followsTwo 1 (.victory 0 1)) = true := by
   decide
 
 end HappyModel.C12
